@@ -54,7 +54,7 @@ package rlp
 //@   ensures v2: size == 2 ==> b[0]*256 + b[1] == i
 //@   ensures v3: size == 3 ==> (b[0]*256 + b[1])*256 + b[2] == i
 //@   ensures v4: size == 4 ==> ((b[0]*256 + b[1])*256 + b[2])*256 + b[3] == i
-//@   ensures v8: size == 8 ==> ((((((b[0]*256 + b[1])*256 + b[2])*256 + b[3])*256 + b[4])*256 + b[5])*256 + b[6])*256 + b[7] == i
+//@   ensures [thorough] v8: size == 8 ==> ((((((b[0]*256 + b[1])*256 + b[2])*256 + b[3])*256 + b[4])*256 + b[5])*256 + b[6])*256 + b[7] == i
 
 //@ # heads: short form below 56, long form with the minimal-length size otherwise
 //@ func puthead
